@@ -25,11 +25,11 @@ def parseCS? : List String → Option (Option CState)
   | _ => none
 
 def parseKS? : List String → Option (Option KState)
-  | [ty, ts, dig] =>
+  | [ty, ts, dig, vb] =>
     if ty = "nil" then some none else do
       let t ← parseTy? ty
       let n ← ts.toNat?
-      pure (some { ty := t, ts := n, dig := dig })
+      pure (some { ty := t, ts := n, dig := dig, vb := bit vb })
   | _ => none
 
 def parseHeight? (s : String) : Option Height :=
@@ -122,8 +122,10 @@ def step (s : St) (line : String) : St × String :=
       let k : Kind := if kind = "create" then .create else if kind = "upgrade" then .upgrade else .toggle
       match nameOf nm, parseCS? (rest.take 11), parseKS? (rest.drop 11) with
       | some n, some cs, some ks =>
-        let (s', r) := Lifecycle.step s (.prop { kind := k, name := n, cs := cs, ks := ks })
-        (s', showRes r ++ " D:" ++ dump s')
+        let p : Proposal := { kind := k, name := n, cs := cs, ks := ks }
+        let (s', r) := Lifecycle.step s (.prop p)
+        -- "rej": refused by the stateless stage (ValidateBasic at submission), "err": by the handler
+        ((s', (if validateContent p then showRes r else "rej") ++ " D:" ++ dump s'))
       | _, _, _ => (s, "bad-op")
     else if kind = "relayer" then
       match rest with
@@ -131,7 +133,7 @@ def step (s : St) (line : String) : St × String :=
         match na.toNat?, parseNames chains with
         | some na, some cs =>
           let (s', r) := Lifecycle.step s (.relayer { address := nm, addrOk := bit aok, nAddresses := na, chains := cs })
-          (s', showRes r ++ " R:" ++ dumpRel s')
+          (s', (if r == Res.err then "rej" else showRes r) ++ " R:" ++ dumpRel s')
         | _, _ => (s, "bad-op")
       | _ => (s, "bad-op")
     else if kind = "status" then
@@ -155,7 +157,7 @@ def step (s : St) (line : String) : St × String :=
         let height : Option (Option Height) :=
           if hrev = "nil" then some none else
           match hrev.toNat?, hh.toNat? with | some a, some b => some (some ⟨a, b⟩) | _, _ => none
-        match parseTy? hty, height, parseCS? (more.take 11), parseKS? ((more.drop 11).take 3), (more.drop 14) with
+        match parseTy? hty, height, parseCS? (more.take 11), parseKS? ((more.drop 11).take 4), (more.drop 15) with
         | some ht, some hgt, some ocs, some oks, nd :: dl =>
           match nd.toNat? with
           | some ndn =>
